@@ -24,6 +24,7 @@ pub struct MCfg {
     pub rate: usize,
     pub fastload: bool,
     pub rom: bool,
+    pub autoload: bool,
 }
 
 impl Default for MCfg {
@@ -40,6 +41,7 @@ impl Default for MCfg {
             rate: 44100,
             fastload: false,
             rom: true,
+            autoload: false,
         }
     }
 }
@@ -87,7 +89,7 @@ pub fn new_emu(c: &MCfg) -> Emu {
         sound_volume: c.volume,
         sound_sample_rate: c.rate,
         load_default_rom: c.rom,
-        autoload_enabled: false,
+        autoload_enabled: c.autoload,
     };
     let mut e = match Emulator::<SimHost>::new(settings, SimCtx) {
         Ok(e) => e,
